@@ -118,7 +118,21 @@ impl<'e> RandFiller<'e> {
         self.comments += 1;
         if self.cfg.multiline_block_comment && self.e.chance(1, 2) {
             self.features.insert("multiline_block_comment".into());
-            return (*self.e.pick(&["/* a\n   b */", "/*\n*/", "/* x\n\ny */"][..])).to_string();
+            return (*self.e.pick(
+                &[
+                    "/* a\n   b */",
+                    "/*\n*/",
+                    "/* x\n\ny */",
+                    // a banner of slashes: '/*/' opens a comment and does not close it
+                    "/*//////\n   banner\n */",
+                    "/*/ a\n b */",
+                    // further lines that are indented deeper than any margin
+                    "/* first\n                                                                                    second */",
+                    "/* p\n\n\n   q\n*/",
+                    "/* nested /* x\n y */ z\n */",
+                ][..],
+            ))
+            .to_string();
         }
         if self.cfg.non_ascii && self.e.chance(1, 3) {
             self.features.insert("non_ascii".into());
